@@ -96,8 +96,10 @@ func firstDiff(a, b bits, n int) int {
 	return -1
 }
 
-func absentOK(op corev1.NodeSelectorOperator) bool {
-	return op == corev1.NodeSelectorOpNotIn || op == corev1.NodeSelectorOpDoesNotExist
+// realAcceptsAbsent observes, through the public API only, whether Karpenter takes a node that does not define the
+// label to satisfy q: an empty first set under the strict treatment is compatible with {q} exactly in that case.
+func realAcceptsAbsent(q *scheduling.Requirement) bool {
+	return scheduling.NewRequirements().Compatible(scheduling.Requirements{q.Key: q}) == nil
 }
 
 // ---- per-process universe ----
@@ -387,10 +389,9 @@ func checkOverlap(r *mon.Report, probes []string, nP int, qa, qb *scheduling.Req
 		if _, ok := r.Extra["diag_noncanonical_only_example"]; !ok {
 			if ns, acc := upstreamSelector(keyCustom, both); acc {
 				w := ""
-				for i := 0; i < nP; i++ {
-					if want.has(i) {
+				for i := 0; i < nP; i++ { // prefer a digits-only witness (a valid label value)
+					if want.has(i) && (w == "" || strings.Trim(probes[i], "0123456789") == "" && strings.Trim(w, "0123456789") != "") {
 						w = probes[i]
-						break
 					}
 				}
 				node := &corev1.Node{ObjectMeta: metav1.ObjectMeta{Name: "n", Labels: map[string]string{keyCustom: w}}}
@@ -640,8 +641,8 @@ func flush(r *mon.Report) {
 var classText = map[string]string{
 	"unsat-conjunction-treated-as-DoesNotExist": "one side's conjunction admits neither any value nor the absent label (it is unsatisfiable), but the algebra stores it as the empty non-complement set, " +
 		"for which Operator() reports DoesNotExist, so Compatible/Intersects take the absent label to satisfy it",
-	"bounded-complement-with-exclusion-reports-NotIn-absent-allowed": "one side's conjunction contains an integer bound, which only a present label can satisfy, but Requirement.Operator() reports NotIn " +
-		"(exclusions make Len() < MaxInt64 and the bounds are ignored), so Compatible/Intersects take the absent / undefined label to satisfy it",
+	"bounded-complement-with-exclusion-reports-NotIn-absent-allowed": "one side's conjunction contains an integer bound, which only a present label can satisfy, but the absent-label test looks at Requirement.Operator(), which reports NotIn " +
+		"(an excluded value inside the range makes Len() < MaxInt64; the bounds are ignored), so Compatible/Intersects take the absent / undefined label to satisfy it",
 	"exists-and-notin-collapses-to-NotIn-absent-allowed": "one side's conjunction is Exists AND NotIn[...]; Intersection stores it exactly like a plain NotIn[...] (complement set with exclusions), " +
 		"the presence demanded by Exists is lost, Operator() reports NotIn and Compatible/Intersects take the absent / undefined label to satisfy it",
 }
@@ -654,6 +655,7 @@ type side struct {
 	ob   bits
 	reqs [3]scheduling.Requirements // by key kind: custom, zone, zone given under its alias
 	op   corev1.NodeSelectorOperator
+	abs  bool // observed: Karpenter accepts the absent label for this set's key
 	bad  bool
 }
 
@@ -670,6 +672,7 @@ func (u *uni) mkSide(c conj, ob bits, bad bool, i, j int) side {
 	}
 	if len(c) > 0 {
 		s.op = s.reqs[0].Get(keyCustom).Operator()
+		s.abs = realAcceptsAbsent(s.reqs[0].Get(keyCustom))
 	}
 	return s
 }
@@ -720,28 +723,24 @@ var compatCfgs = []compatCfg{
 // classify names the root-cause class of a Compatible/Intersects disagreement from what the public
 // API reports about the two sides (Operator()) and what the oracle knows about their conjunctions.
 func classify(nP int, sides ...sideView) string {
+	// the sides passed are the two conjunctions on ONE disagreeing key; a side explains an unjustified acceptance when
+	// Karpenter (observed) takes the absent label to satisfy it although its conjunction does not admit the absent label
 	for _, s := range sides {
-		if s.undefined {
+		if s.undefined || !s.realAbs || s.ob.has(nP) {
 			continue
 		}
-		vals := s.ob.without(nP)
-		abs := s.ob.has(nP)
-		if vals.zero() && !abs && absentOK(s.op) {
+		if s.ob.without(nP).zero() {
 			return "unsat-conjunction-treated-as-DoesNotExist"
 		}
 	}
 	for _, s := range sides {
-		if s.undefined {
+		if s.undefined || !s.realAbs || s.ob.has(nP) || s.ob.without(nP).zero() {
 			continue
 		}
-		vals := s.ob.without(nP)
-		abs := s.ob.has(nP)
-		if !vals.zero() && !abs && absentOK(s.op) {
-			if s.c.hasBound() {
-				return "bounded-complement-with-exclusion-reports-NotIn-absent-allowed"
-			}
-			return "exists-and-notin-collapses-to-NotIn-absent-allowed"
+		if s.c.hasBound() {
+			return "bounded-complement-with-exclusion-reports-NotIn-absent-allowed"
 		}
+		return "exists-and-notin-collapses-to-NotIn-absent-allowed"
 	}
 	return ""
 }
@@ -750,7 +749,7 @@ type sideView struct {
 	undefined bool
 	c         conj
 	ob        bits
-	op        corev1.NodeSelectorOperator
+	realAbs   bool
 }
 
 func checkCompatPair(r *mon.Report, u *uni, sr, sq *side, cf compatCfg) {
@@ -806,11 +805,12 @@ func checkCompatPair(r *mon.Report, u *uni, sr, sq *side, cf compatCfg) {
 	if gotCompat == wantCompat && gotInter == wantInter && gotIs == gotCompat {
 		return
 	}
-	views := []sideView{{sq.c == nil, sq.c, sq.ob, sq.op}, {sr.c == nil, sr.c, sr.ob, sr.op}}
+	views := []sideView{{sq.c == nil, sq.c, sq.ob, sq.abs}, {sr.c == nil, sr.c, sr.ob, sr.abs}}
 	cs := map[string]any{"first": sr.c.String(), "second": sq.c.String(), "config": cf.name, "first_key": kindKeys[cf.rk], "second_key": kindKeys[cf.qk]}
 	wit := map[string]any{"Compatible_ok": gotCompat, "oracle_compatible": wantCompat, "Intersects_ok": gotInter, "oracle_intersects": wantInter,
 		"first_requirements": R.String(), "second_requirements": Q.String(),
 		"first_Operator": string(sr.op), "second_Operator": string(sq.op),
+		"first_absent_label_accepted_by_karpenter": sr.c != nil && sr.abs, "second_absent_label_accepted_by_karpenter": sq.c != nil && sq.abs,
 		"first_admits_absent": sr.c == nil || sr.ob.has(nP), "second_admits_absent": sq.c == nil || sq.ob.has(nP),
 		"first_admits_some_value": !sr.ob.without(nP).zero(), "second_admits_some_value": !sq.ob.without(nP).zero()}
 	if gotIs != gotCompat {
@@ -1102,7 +1102,12 @@ func checkSets(r *mon.Report, first, second []keyed, allow bool, baseScore int) 
 	for k := range gs {
 		ck[k] = true
 	}
-	var views []sideView
+	type perKey struct {
+		cf, cq   conj
+		okf, okq bool
+		rb, qb   bits
+	}
+	pk := map[string]perKey{}
 	var sortedKeys []string
 	for k := range ck {
 		sortedKeys = append(sortedKeys, k)
@@ -1126,12 +1131,7 @@ func checkSets(r *mon.Report, first, second []keyed, allow bool, baseScore int) 
 		if okf && okq && rb.and(qb).zero() {
 			wantInter = false
 		}
-		if okf {
-			views = append(views, sideView{false, cf, rb, R.Get(k).Operator()})
-		}
-		if okq {
-			views = append(views, sideView{false, cq, qb, Q.Get(k).Operator()})
-		}
+		pk[k] = perKey{cf, cq, okf, okq, rb, qb}
 		if !okf && okq {
 			r.Inc("compat_undefined_key_in_first")
 		}
@@ -1143,12 +1143,13 @@ func checkSets(r *mon.Report, first, second []keyed, allow bool, baseScore int) 
 			return
 		}
 	}
-	var gotCompat bool
-	if allow {
-		gotCompat = R.Compatible(Q, scheduling.AllowUndefinedWellKnownLabels) == nil
-	} else {
-		gotCompat = R.Compatible(Q) == nil
+	compat := func(a, b scheduling.Requirements) bool {
+		if allow {
+			return a.Compatible(b, scheduling.AllowUndefinedWellKnownLabels) == nil
+		}
+		return a.Compatible(b) == nil
 	}
+	gotCompat := compat(R, Q)
 	gotInter := R.Intersects(Q) == nil
 	r.Inc("compat_checks")
 	r.Inc("intersects_checks")
@@ -1163,47 +1164,78 @@ func checkSets(r *mon.Report, first, second []keyed, allow bool, baseScore int) 
 	if gotCompat == wantCompat && gotInter == wantInter {
 		return
 	}
-	cs := map[string]any{"first": first, "second": second, "allow_undefined_well_known": allow}
-	wit := map[string]any{"Compatible_ok": gotCompat, "oracle_compatible": wantCompat, "Intersects_ok": gotInter, "oracle_intersects": wantInter,
-		"first_requirements": R.String(), "second_requirements": Q.String()}
-	cls := classify(nP, views...)
-	shape := func() string {
-		var s []string
-		for _, k := range sortedKeys {
-			s = append(s, gf[k].shape()+"|"+gs[k].shape())
-		}
-		return strings.Join(s, ";")
-	}
 	method, got, want := "Compatible", gotCompat, wantCompat
 	if gotCompat == wantCompat {
 		method, got, want = "Intersects", gotInter, wantInter
 	}
-	key := cls
-	if key == "" || !got {
-		d := "accepts-but-no-labelling-exists"
-		if !got {
-			d = "rejects-but-a-labelling-exists"
-		}
-		key = strings.ToLower(method) + "-" + d + ":multi-key-sets"
+	dir := "accepts-but-no-labelling-exists"
+	if !got {
+		dir = "rejects-but-a-labelling-exists"
 	}
-	wit["per_key_shapes_first|second"] = shape()
-	ops := map[string]string{}
+	// attribute the disagreement to the key(s) on which the real answer for that key alone differs from the oracle, and
+	// name the class from the conjunct shape on that key only
+	classes := map[string][]string{}
+	detail := map[string]any{}
 	for _, k := range sortedKeys {
-		f, q := "<undefined>", "<undefined>"
-		if R.Has(k) {
-			f = string(R.Get(k).Operator())
+		p := pk[k]
+		Rk, Qk := scheduling.Requirements{}, scheduling.Requirements{}
+		if p.okf {
+			Rk[k] = R.Get(k)
 		}
-		if Q.Has(k) {
-			q = string(Q.Get(k).Operator())
+		if p.okq {
+			Qk[k] = Q.Get(k)
 		}
-		ops[k] = "first.Operator()=" + f + " second.Operator()=" + q
+		gk, wk := compat(Rk, Qk), !p.rb.and(p.qb).zero()
+		if method == "Intersects" {
+			gk, wk = Rk.Intersects(Qk) == nil, !(p.okf && p.okq) || !p.rb.and(p.qb).zero()
+		}
+		d := map[string]any{"first": p.cf.String(), "second": p.cq.String(), "karpenter_ok": gk, "oracle_ok": wk}
+		var views []sideView
+		if p.okq {
+			a := realAcceptsAbsent(Q.Get(k))
+			views = append(views, sideView{false, p.cq, p.qb, a})
+			d["second.Operator()"], d["second_absent_label_accepted_by_karpenter"], d["second_admits_absent"] = string(Q.Get(k).Operator()), a, p.qb.has(nP)
+		}
+		if p.okf {
+			a := realAcceptsAbsent(R.Get(k))
+			views = append(views, sideView{false, p.cf, p.rb, a})
+			d["first.Operator()"], d["first_absent_label_accepted_by_karpenter"], d["first_admits_absent"] = string(R.Get(k).Operator()), a, p.rb.has(nP)
+		}
+		detail[k] = d
+		if gk == wk {
+			continue
+		}
+		cls := ""
+		if gk {
+			cls = classify(nP, views...)
+		}
+		if cls == "" {
+			kd := "accepts-but-no-labelling-exists"
+			if !gk {
+				kd = "rejects-but-a-labelling-exists"
+			}
+			cls = strings.ToLower(method) + "-" + kd + ":" + p.cf.class() + "|" + p.cq.class()
+		}
+		classes[cls] = append(classes[cls], k)
 	}
-	wit["Operator_per_key"] = ops
-	what := fmt.Sprintf("Requirements.%s(first=%v, second=%v, allowUndefinedWellKnown=%v) ok=%v but %s", method, first, second, allow, got, explain(want))
-	if t, ok := classText[key]; ok {
-		what += " — " + t
+	if len(classes) == 0 { // every key alone agrees: the disagreement only exists for the combination
+		classes[strings.ToLower(method)+"-"+dir+":multi-key-interaction"] = nil
 	}
-	report(r, key, baseScore+realism(all), fmt.Sprint(first, second), what, cs, wit)
+	cs := map[string]any{"first": first, "second": second, "allow_undefined_well_known": allow}
+	clsKeys := make([]string, 0, len(classes))
+	for c := range classes {
+		clsKeys = append(clsKeys, c)
+	}
+	sort.Strings(clsKeys)
+	for _, key := range clsKeys {
+		wit := map[string]any{"Compatible_ok": gotCompat, "oracle_compatible": wantCompat, "Intersects_ok": gotInter, "oracle_intersects": wantInter,
+			"first_requirements": R.String(), "second_requirements": Q.String(), "disagreeing_keys_of_this_class": classes[key], "per_key": detail}
+		what := fmt.Sprintf("Requirements.%s(first=%v, second=%v, allowUndefinedWellKnown=%v) ok=%v but %s; disagreeing key(s) of this class: %v", method, first, second, allow, got, explain(want), classes[key])
+		if t, ok := classText[key]; ok {
+			what += " — " + t
+		}
+		report(r, key, baseScore+realism(all), fmt.Sprint(first, second), what, cs, wit)
+	}
 }
 
 // ---- pod versus concrete node: the whole path NewLabelRequirements(node labels).Compatible(NewStrictPodRequirements(pod))
@@ -1307,15 +1339,15 @@ func runPodVsNode(r *mon.Report, rng *rand.Rand, fixed *corev1.Pod, fixedLabels 
 		_, present := labels[failing]
 		ne, _ := nonEmptyExact(c)
 		abs := admitsAbsent(c)
-		op := podReqs.Get(failing).Operator()
+		acc := realAcceptsAbsent(podReqs.Get(failing))
 		switch {
 		case present:
 			key += ":label-present/" + c.class()
-		case !ne && !abs && absentOK(op):
+		case !ne && !abs && acc:
 			key = "unsat-conjunction-treated-as-DoesNotExist"
-		case ne && !abs && absentOK(op) && c.hasBound():
+		case ne && !abs && acc && c.hasBound():
 			key = "bounded-complement-with-exclusion-reports-NotIn-absent-allowed"
-		case ne && !abs && absentOK(op):
+		case ne && !abs && acc:
 			key = "exists-and-notin-collapses-to-NotIn-absent-allowed"
 		default:
 			key += ":label-absent/" + c.class()
@@ -1405,7 +1437,11 @@ func runCanonical(r *mon.Report) {
 	probes := buildProbes(all, 1)
 	qa := newReq(keyCustom, ca[0], nil).Intersection(newReq(keyCustom, ca[1], nil))
 	qb := newReq(keyCustom, cb[0], nil)
+	delete(r.Extra, "diag_noncanonical_only_example")
 	checkOverlap(r, probes, len(probes), qa, qb, ca, cb, conjBits(all, probes))
+	if ex, ok := r.Extra["diag_noncanonical_only_example"]; ok {
+		r.Extra["diag_gt4_lt6_vs_notin5"] = ex
+	}
 	r.Inc("canonical_scenarios")
 }
 
